@@ -115,6 +115,81 @@ def nontrivial_key(sc):
     return None
 
 
+BHDR = "From Coq Require Import Strings.String.\nFrom SioV Require Import Base.GoSem Sio.NspRouting Sio.NspFrames Sio.NspFramesCheck.\nLocal Open Scope N_scope.\n"
+
+
+def burst_term(sc):
+    # all deliveries of a scenario as one string literal (see NspFramesCheck.unpack): tens of thousands of
+    # numerals are slow to read
+    def pack(d):
+        assert all(0 <= x <= 9 for x in d[:5]) and d[5] < 1000
+        t = "%d%d%d%d%d%03d" % tuple(d[:6])
+        for j in range((len(d) - 6) // 5):
+            a = d[6 + 5 * j: 11 + 5 * j]
+            t += "%d%d%d%03d%d" % (min(a[0], 9), min(a[1], 9), min(a[2], 9), min(a[3], 999), min(a[4], 9))
+        return t
+    rows = '"' + ";".join(pack(d) for d in sc["del"]) + '"%string'
+    return "((%d, %d, %d, %s, %s) : pcase)" % (len(sc["names"]), sc["em"], sc["rounds"], gbool(sc["closed"]), rows)
+
+
+def burst_suite(ctx, vh, n, rounds):
+    """concurrent emitters of several namespaces on one connection, both directions, binary + text"""
+    def run(seed, k):
+        return ctx.vh_jsonl(vh, "namespaces", ["-mode", "burst", "-seed", seed, "-n", k, "-ops", rounds])
+    scs = run(ctx.seed + 2, n)
+    if scs is None:
+        return
+    broken = [s for s in scs if s.get("err")]
+    scs = [s for s in scs if not s.get("err")]
+    terms = [burst_term(s) for s in scs]
+    bad_both = ctx.coq_eval_cases("c05_burst_both", BHDR, terms, "(fun c => NspFramesCheck.poracle c && NspFramesCheck.pagree c)", shard=1)
+    tb = [terms[i] for i in bad_both]
+    bad_o = [bad_both[j] for j in ctx.coq_eval_cases("c05_burst_oracle", BHDR, tb, "NspFramesCheck.poracle", shard=1)]
+    bad_a = [bad_both[j] for j in ctx.coq_eval_cases("c05_burst_agree", BHDR, tb, "NspFramesCheck.pagree", shard=1)]
+    # environmental failures (stall > 15 s: deliveries missing, nothing foreign, connection up) are re-run once
+    only_a = [i for i in bad_a if i not in bad_o]
+    if only_a:
+        redo = run(ctx.seed + 1000, len(only_a)) or []
+        redo = [s for s in redo if not s.get("err")]
+        t2 = [burst_term(s) for s in redo]
+        if redo and not ctx.coq_eval_cases("c05_burst_agree2", BHDR, t2, "NspFramesCheck.pagree", shard=1) \
+                and not ctx.coq_eval_cases("c05_burst_oracle2", BHDR, t2, "NspFramesCheck.poracle", shard=1):
+            ctx.indeterminate += len(only_a)
+            ctx.note("burst: %d scenario(s) with missing deliveries passed when re-run" % len(only_a))
+            bad_a = [i for i in bad_a if i in bad_o]
+    for s in scs:
+        ctx.count(len(s["del"]), nontrivial_key=json.dumps([s["id"], s["names"], s["em"], s["bcast"], s["tr"]]),
+                  dist="burst:%dnsp:%dem:%s" % (len(s["names"]), s["em"], s["tr"]))
+    if scs:
+        s = scs[0]
+        ctx.sample({"suite": "burst", "id": s["id"], "names": s["names"], "em": s["em"], "rounds": s["rounds"],
+                    "bcast": s["bcast"], "deliveries": len(s["del"]), "first": s["del"][:2]})
+    ctx.obligation("oracle:burst", "oracle", not bad_o and not broken,
+                   "%d scenarios, %d deliveries, %d scenarios fail" % (len(scs), sum(len(s["del"]) for s in scs), len(bad_o)))
+    ctx.obligation("correspondence:burst", "correspondence", not bad_a, "%d scenarios, %d disagree with Sio/NspFrames.v" % (len(scs), len(bad_a)))
+    for s in broken[:1]:
+        ctx.violation("burst rig could not run: %s" % s["err"], {"kind": "correspondence-broken", "suite": "burst", "case": {k: s[k] for k in s if k != "del"}}, no_input=True)
+    for i in bad_o[:2]:
+        s = scs[i]
+        nn = len(s["names"])
+        foreign = [d for d in s["del"] if d[1] != d[3] or any(d[6 + 5 * j] != 1 - d[0] or d[7 + 5 * j] != d[1] or d[8 + 5 * j] != d[4] or d[9 + 5 * j] != d[5]
+                                                             for j in range((len(d) - 6) // 5))]
+        ctx.violation("namespaces sharing one connection are not isolated under concurrent emits (a parse error on the shared connection "
+                      "disconnects every namespace on it): %d handler entr%s received an argument "
+                      "that no emit of the handler's namespace carried (first: %s; row = srv, handler nsp, kind, nsp, emitter, seq, then "
+                      "dir/nsp/emitter/seq/pos per argument, dir 9 = foreign bytes); shared connection closed: %s (%s); names %s, %d emitters per "
+                      "(direction, namespace), %d rounds, text and 3-attachment events alternating"
+                      % (len(foreign), "y" if len(foreign) == 1 else "ies", foreign[:1], s["closed"], s["reason"], s["names"], s["em"], s["rounds"]),
+                      {"kind": "failing-input", "engine": "namespaces", "mode": "burst",
+                       "args": ["-mode", "burst", "-seed", ctx.seed + 2, "-n", n, "-ops", rounds], "scenario": {k: s[k] for k in s if k != "del"},
+                       "foreign_rows": foreign[:5], "deliveries": len(s["del"])})
+    if bad_a and not bad_o:
+        s = scs[bad_a[0]]
+        ctx.violation("burst: deliveries differ from the model Sio/NspFrames.v (lost / duplicated packets) in scenario %s" % s["id"],
+                      {"kind": "correspondence-broken", "suite": "burst", "theorems": ["C05_frames_isolated"],
+                       "scenario": {k: s[k] for k in s if k != "del"}, "deliveries": len(s["del"])}, no_input=True)
+
+
 def judge(ctx, suite, scs, rerun=None):
     """oracle first (property on the implementation's observations), then agreement with the model"""
     scs = [s for s in scs if s is not None]
@@ -205,7 +280,7 @@ def run(ctx):
                    "loopback TCP, websocket/polling transports, Go scheduler (operations wait for their effects)"]
     ctx.assumptions = ["each operation's effects complete within 5 s (otherwise the scenario is re-run once)",
                        "wire-level statement C05_nsp_injective relies on Sio/Header.v (C10's port of parseHeader)"]
-    ctx.proofs(modules=["Sio/NspRoutingCheck"])
+    ctx.proofs(modules=["Sio/NspRoutingCheck", "Sio/NspFramesCheck"])
     vh = ctx.go_build()
     if vh is None:
         return
@@ -225,10 +300,11 @@ def run(ctx):
                 forced.append(json.load(open(os.path.join(cdir, f))))
     if forced:
         judge(ctx, "forced", [rerun(s) for s in forced], rerun)
-    n_live, n_raw = (40, 40) if ctx.quick else (400, 400)
+    n_live, n_raw = (30, 30) if ctx.quick else (400, 400)
     live = ctx.vh_jsonl(vh, "namespaces", ["-mode", "live", "-seed", ctx.seed, "-n", n_live, "-ops", 30, "-par", 6])
     if live is not None:
         judge(ctx, "live", live, rerun)
+    burst_suite(ctx, vh, 6 if ctx.quick else 40, 300)
     raw = ctx.vh_jsonl(vh, "namespaces", ["-mode", "raw", "-seed", ctx.seed + 1, "-n", n_raw, "-ops", 24, "-par", 6])
     if raw is not None:
         judge(ctx, "rawprobe", raw, rerun)
